@@ -7,11 +7,11 @@ namespace SparseV
 
 /-! ## consequences of a successful n-ary broadcast -/
 
-theorem maxRank_le {shapes : List (List Nat)} {n : Nat} (h : ∀ s ∈ shapes, s.length ≤ n) : maxRank shapes ≤ n := by
+theorem bcRank_le {shapes : List (List Nat)} {n : Nat} (h : ∀ s ∈ shapes, s.length ≤ n) : bcRank shapes ≤ n := by
   induction shapes with
-  | nil => simp [maxRank]
+  | nil => simp [bcRank]
   | cons s rest ih =>
-    rw [maxRank_cons]
+    rw [bcRank_cons]
     have := h s (by simp)
     have := ih fun t ht => h t (List.mem_cons_of_mem _ ht)
     omega
@@ -21,7 +21,7 @@ theorem bcTo_of_bshapeN {shapes : List (List Nat)} {r s : List Nat} (h : bshapeN
     (hs : s ∈ shapes) : BcTo s r := by
   obtain ⟨hok, rfl⟩ := bshapeN_ok_iff.mp h
   apply bcTo_of_ext
-  · rw [nDims_length]; exact le_maxRank hs
+  · rw [nDims_length]; exact le_bcRank hs
   · intro k _
     rw [ext_nDims']
     exact (hok k).mem_eq (List.mem_map.mpr ⟨s, hs, rfl⟩)
@@ -43,7 +43,7 @@ theorem bcTo_sub {shapes sub : List (List Nat)} {r r' : List Nat} (h : bshapeN s
   obtain ⟨_, rfl⟩ := bshapeN_ok_iff.mp h'
   apply bcTo_of_ext
   · rw [nDims_length, nDims_length]
-    exact maxRank_le fun s hs => le_maxRank (hsub s hs)
+    exact bcRank_le fun s hs => le_bcRank (hsub s hs)
   · intro k _
     rw [ext_nDims', ext_nDims']
     rcases colDim_spec (colAt sub k) with hs | hs
@@ -146,8 +146,8 @@ theorem fillArr_all_iff (f : List α → α) (ops : List (Operand α)) (ndShape 
   unfold fillOf
   constructor
   · intro h i hi i' hi'
-    have h1 := h _ (List.mem_map.mpr ⟨i, mem_allIdx.mpr hi, rfl⟩)
-    have h2 := h _ (List.mem_map.mpr ⟨i', mem_allIdx.mpr hi', rfl⟩)
+    have h1 := h _ (List.mem_map.mpr ⟨i, bc_mem_allIdx.mpr hi, rfl⟩)
+    have h2 := h _ (List.mem_map.mpr ⟨i', bc_mem_allIdx.mpr hi', rfl⟩)
     simp only [decide_eq_true_eq] at h1 h2
     rw [h1, h2]
   · intro h x hx
@@ -158,7 +158,7 @@ theorem fillArr_all_iff (f : List α → α) (ops : List (Operand α)) (ndShape 
     | nil => rw [hall] at hi; cases hi
     | cons i0 rest =>
       simp only [List.map_cons, List.headD_cons]
-      exact h i (mem_allIdx.mp hi) i0 (mem_allIdx.mp (by rw [hall]; simp))
+      exact h i (bc_mem_allIdx.mp hi) i0 (bc_mem_allIdx.mp (by rw [hall]; simp))
 
 /-- under `FillConst` the fill is the function at ANY position of the dense operands' shape -/
 theorem fillOf_eq (f : List α → α) (ops : List (Operand α)) (ndShape : List Nat)
@@ -166,7 +166,7 @@ theorem fillOf_eq (f : List α → α) (ops : List (Operand α)) (ndShape : List
     fillOf f ops ndShape = f (ops.map fun o => o.fillAt ndShape i) := by
   have := (fillArr_all_iff f ops ndShape).mpr h
   rw [List.all_eq_true] at this
-  have := this _ (List.mem_map.mpr ⟨i, mem_allIdx.mpr hi, rfl⟩)
+  have := this _ (List.mem_map.mpr ⟨i, bc_mem_allIdx.mpr hi, rfl⟩)
   simp only [decide_eq_true_eq] at this
   exact this.symm
 
